@@ -48,7 +48,12 @@ def run(ctx):
                   len(sg) == 1 and re.match(r"^return (<\w+ as Async(Read|Write)>|Async(Read|Write))::%s\(self\.[\w.]+,cx(,\w+)?\)$" % m.group(3), sg[0]) is not None,
                   "%s does not delegate to the wrapped stream's %s: %s" % (g.path, m.group(3), sg), where(g), key="tokio delegation|%s" % g.path.replace("wtransport::", ""))
     ctx.floor("C01-R3", "tokio AsyncRead/AsyncWrite methods", nio, 12)
-    import rules.C06 as c06  # delegation of read/write/read_exact/write_all (value and count unchanged)
+    for nm in ("write", "write_all"):   # write_all is quinn's write_all: a single partial write must not report success
+        f = A.find1(r"^wtransport::driver::streams::QuicSendStream::%s::\{closure#0\}$" % nm)
+        sg = sorted(path_sig(p)[1] for p in nonpanic(walk(f)))
+        W = "await(SendStream::%s(self.0,buf))" % nm
+        want = sorted(["return Result::Err(err(%s))" % W, ("return Result::Ok(ok(%s))" % W) if nm == "write" else "return Result::Ok(())"])
+        ctx.check("C01-R3", "QuicSendStream::%s passes buf/count/error through" % nm, sg == want, "QuicSendStream::%s does not pass buf/count/error through unchanged: %s" % (nm, sg), where(f))
     for nm, inner in (("read", "QuicRecvStream::read(self.0,buf)"), ("read_exact", "QuicRecvStream::read_exact(self.0,buf)")):
         f = A.find1(r"^wtransport::stream::RecvStream::%s::\{closure#0\}$" % nm)
         sg = [path_sig(p)[1] for p in nonpanic(walk(f))]
